@@ -29,7 +29,7 @@ claimed = {
  'C13': ('entitlement at receipt (exact rationals) + settle-before-change + immediate-claim probes', 'Every withdraw_rewards of the module is attributed from the eager pre-step snapshot by weight x asset share and pro rata to exact position values; every explicit or implicit claim without value-changing event since accrual must pay that entitlement within the derived bounds; stake-changing steps with rewards pending must settle first; probe claims right after delegate/redelegate pay nothing; second claim pays nothing; claims are stake-neutral.', '5/C13'),
  'C14': ('per-block arithmetic oracle + settle-before-change on weight changes', 'Weight within range after every step; due decays equal clamp(w*rate^n) against a 2048-bit reference, clock advanced by exactly n intervals, clock restarts when governance configures decay; every step that stores a different weight must withdraw rewards pending for the module first; warm-up assets not charged / not initialised early.', '5/C14'),
  'C18': ('export -> wipe -> import on a branch, lock-step continuation', 'At every 5th block boundary: second export byte-identical; a 14-step continuation (operations, slashes of validators with pending entries, maturity jumps) runs on the original and the re-imported state in lock-step; results, event digests, balances, supply, validator states, exports and queries compared after every step.', '5/C18'),
- 'C19': ('replays on sibling branches with byte comparison, every other replay interleaved with discarded-branch (ghost) executions; race detector run in thorough', 'Every history is replayed twice from its explicit step list on sibling branches in one process, one of the replays with each step first executed on a branch that is thrown away (state kept outside the store shows up as a divergence); results, event digests and SHA-256 of the raw alliance/bank/staking/distribution/slashing/auth stores compared after every step/block. The static source-scan clause of the property is out of reach of runtime monitoring and is not decided.', '5/C19'),
+ 'C19': ('replays on sibling branches with byte comparison, every other replay interleaved with discarded-branch (ghost) executions incl. look-ahead; re-runs in fresh processes; race detector run in thorough', 'Every history is replayed twice from its explicit step list on sibling branches in one process, one of the replays with each step first executed on a branch that is thrown away (state kept outside the store shows up as a divergence), and a sample of histories is executed once more in a process of its own and must give the same digest; results, event digests and SHA-256 of the raw alliance/bank/staking/distribution/slashing/auth stores compared after every step/block. The static source-scan clause of the property is out of reach of runtime monitoring and is not decided.', '5/C19'),
  'C20': ('independent enumeration of primary records vs every query and binding', 'Every gRPC query for all filter arguments from the live state (plus absent ones), unpaginated and stitched from key/offset pages and with count_total, compared as multisets with an independent raw-store enumeration and the reference entries; reported balance probed with Undelegate(balance)/(balance+1); contract bindings compared field by field with gRPC.', '5/C20'),
  'C17': ('recover around every end-of-block under accepted-configuration fuzz', 'Every end-of-block of every history of the gov/extreme/time profiles must return without error or panic; configuration values are only those the modules own handlers accepted on the main line.', '5/C17'),
 }
